@@ -14,6 +14,7 @@ Functions:
 from __future__ import annotations
 
 import multiprocessing
+import os
 import pickle
 import sys
 from dataclasses import dataclass
@@ -40,8 +41,13 @@ def _pickle_load(file: Path) -> Any:
 
 
 def _pickle_save(file: Path, data: Any) -> None:
-    with file.open("wb") as fp:
+    # `_load_or_run` takes the mere existence of `file` as "result available", so `file`
+    # must never be visible half-written (e.g. after the process was killed): write to a
+    # temporary file in the same directory and move it into place atomically.
+    tmp = file.with_name(f"{file.name}.{os.getpid()}.tmp")
+    with tmp.open("wb") as fp:
         pickle.dump(data, fp)
+    os.replace(tmp, file)
 
 
 @dataclass
